@@ -315,6 +315,29 @@ def run(rep: common.Report, tier: str, seed: int, replay=None) -> int:
             continue
         run_case(rep, rng, 300 + fi, dv, dict(terminals=2, holes=0, field="static", td_current=False, screening=False, adaptive=True,
                                               current_units="uA", terminal_psi=0.0, solve_time=0.1), model_records=False)
+    # plain rectangles centred on the origin with the DEFAULT mesh (mirror-symmetric triangulations, right triangles at the
+    # corners): every balanced assignment has to be accepted on the mesh the package itself produced
+    for pi_, (W_, H_, n_, xi_) in enumerate(((3.0, 3.0, 40, 0.5), (6.0, 3.0, 40, 0.5), (5.0, 1.0, 40, 0.5), (10.0, 2.0, 40, 1.0))):
+        dvp = tdgl.Device(f"plain_{pi_}", layer=tdgl.Layer(coherence_length=xi_, london_lambda=2.0, thickness=0.1, gamma=1),
+                          film=tdgl.Polygon("film", points=box(W_, H_, points=n_)),
+                          terminals=[tdgl.Polygon("source", points=box(0.2, 0.66 * H_, center=(-W_ / 2, 0))),
+                                     tdgl.Polygon("drain", points=box(0.2, 0.66 * H_, center=(W_ / 2, 0)))],
+                          length_units="um")
+        try:
+            dvp.make_mesh()
+        except Exception as e:  # noqa: BLE001
+            rep.coverage["plain_devices_not_meshed"] = rep.coverage.get("plain_devices_not_meshed", 0) + 1
+            continue
+        a_ = dvp.mesh.areas       # (the package only warns about encroached boundary cells: whatever mesh it returns has to be usable)
+        try:
+            run_case(rep, rng, 400 + pi_, dvp, dict(terminals=2, holes=0, field="static", td_current=False, screening=False, adaptive=True,
+                                                    current_units="uA", terminal_psi=0.0, solve_time=0.05), model_records=False)
+            rep.coverage["plain_devices_accepted"] = rep.coverage.get("plain_devices_accepted", 0) + 1
+        except Exception as e:  # noqa: BLE001
+            rep.violation(f"a plain rectangular device (default mesh, as returned by make_mesh) with balanced terminal "
+                          f"currents was refused: {type(e).__name__}: {e}"[:300],
+                          {"run": 400 + pi_, "film": [W_, H_, n_], "xi": xi_, "sites": len(dvp.mesh.sites),
+                           "min_cell_area": float(a_.min())})
     # history on ONE device object: mesh, solve, re-mesh with a different boundary discretisation, solve again
     devh = meshes.make_device(rng, holes=0, terminals=2, max_edge_length=1.2)
     cfgh = dict(terminals=2, holes=0, field="static", td_current=False, screening=False, adaptive=True,
